@@ -33,6 +33,7 @@ void vterm_automate_newdata(struct vterm_automate *vterm, int16_t input_c)
     char c = 0;
     int ret;
     int return_flag = 0;
+    unsigned int cursor_before = 0;
 
     while (return_flag == 0)
     {
@@ -78,6 +79,9 @@ void vterm_automate_newdata(struct vterm_automate *vterm, int16_t input_c)
                 break;
             }
 
+            // Позиция курсора до обработки символа: от неё отсчитывается
+            // начало строки при перерисовке (READLINE_UPDATELINE).
+            cursor_before = vterm->rl.line.cursor;
             ret = readline_putchar(&vterm->rl, c);
 
             switch (ret)
@@ -166,9 +170,12 @@ void vterm_automate_newdata(struct vterm_automate *vterm, int16_t input_c)
                 {
                     if (vterm->echo)
                     {
-                        ret = vt100_left(buf, vterm->rl.lastsize);
-
-                        vterm->write_callback(vterm->write_privdata, buf, ret);
+                        if (cursor_before)
+                        {
+                            ret = vt100_left(buf, cursor_before);
+                            vterm->write_callback(
+                                vterm->write_privdata, buf, ret);
+                        }
 
                         vterm->write_callback(vterm->write_privdata,
                                               VT100_ERASE_LINE_AFTER_CURSOR,
